@@ -25,6 +25,8 @@ def cases(rng, tier):
     for i in range(n):
         hi = (i % 25 == 0)
         tr = G.rand_traj(rng, nseg=rng.choice([1, 2, 3, 5, 8]), maxdeg=(7 if hi else 3))
+        if i % 6 == 1 and not hi:
+            G.close_loops(rng, tr)          # curved segments that end exactly where they start
         yield ("stats bbox %s" % hexs(G.encode(tr)), "deg7" if hi else "gen")
     # blocks longer than 64 KiB whose extreme segments lie beyond byte offset 65536
     for i in range(8 if tier == "thorough" else 1):
